@@ -233,7 +233,7 @@ theorem fits_length_partial (e : Env) (hn : Normal e) (hT : TextsFine e.texts) (
   have hrep := reply_chunked e cfg chunks s allowed s1 hprep (by omega) _ hwrap
   refine ⟨_, _, hrep, ?_⟩
   intro o ho
-  have hmem : o ∈ deliveryOrder e (processLines none raw) := by
+  have hmem : o ∈ deliveryOrder e ((processLines none raw).take cfg.maximumMores) := by
     rcases List.mem_append.mp ho with h | h
     · exact List.mem_of_mem_take h
     · split at h
@@ -241,6 +241,9 @@ theorem fits_length_partial (e : Env) (hn : Normal e) (hT : TextsFine e.texts) (
       · simp only [Option.getD_some, List.mem_reverse] at h
         exact List.mem_of_mem_drop h
   obtain ⟨j, l, hj, hl, rfl⟩ := mem_deliveryOrder e _ o hmem
+  have hl := List.mem_of_mem_take hl
+  have hj : j < (processLines none raw).length := by
+    simp only [List.length_take] at hj; omega
   have htab : Gen.tabFactor = 8 := hc.2.2.2.2.2.2.2.1
   have hj' : j ≤ Gen.tabFactor * blen s1 := by rw [htab]; omega
   have h1 := blen_withSuffix_le hk e.texts hT j (blen s1) l hj'
@@ -322,9 +325,9 @@ theorem reply_first_batch (e : Env) (cfg : Cfg) (chunks : List Str) (s : Str) (a
     (hprep : prepare e cfg s = some (allowed, s1, false))
     (hres : suffixReserve e.texts (blen s1) ≤ allowed)
     (lines : List Str) (hwrap : ircWrap chunks s1 (allowed - suffixReserve e.texts (blen s1)) = .ok lines) :
-    reply e cfg chunks s = .sent ((deliveryOrder e lines).take (max cfg.instant 1))
-      (if (deliveryOrder e lines).length < max cfg.instant 1 then none
-       else some ((deliveryOrder e lines).drop (max cfg.instant 1)).reverse) :=
+    reply e cfg chunks s = .sent ((deliveryOrder e (lines.take cfg.maximumMores)).take (max cfg.instant 1))
+      (if (deliveryOrder e (lines.take cfg.maximumMores)).length < max cfg.instant 1 then none
+       else some ((deliveryOrder e (lines.take cfg.maximumMores)).drop (max cfg.instant 1)).reverse) :=
   reply_chunked e cfg chunks s allowed s1 hprep hres lines hwrap
 
 /-- First answer plus successive `more` commands, for any batch sizes `ks` (Misc.mores ≥ 1, possibly
@@ -337,18 +340,18 @@ theorem more_protocol (e : Env) (cfg : Cfg) (chunks : List Str) (s : Str) (allow
     (lines : List Str) (hwrap : ircWrap chunks s1 (allowed - suffixReserve e.texts (blen s1)) = .ok lines)
     (ks : List Nat) (hks : ∀ k ∈ ks, 1 ≤ k) :
     ∃ now stored, reply e cfg chunks s = .sent now stored ∧
-      now ++ (runMores ks (stored.getD [])).1.flatten = (deliveryOrder e lines).take (max cfg.instant 1 + ks.sum) ∧
-      (runMores ks (stored.getD [])).2 = ((deliveryOrder e lines).drop (max cfg.instant 1 + ks.sum)).reverse := by
+      now ++ (runMores ks (stored.getD [])).1.flatten = (deliveryOrder e (lines.take cfg.maximumMores)).take (max cfg.instant 1 + ks.sum) ∧
+      (runMores ks (stored.getD [])).2 = ((deliveryOrder e (lines.take cfg.maximumMores)).drop (max cfg.instant 1 + ks.sum)).reverse := by
   refine ⟨_, _, reply_chunked e cfg chunks s allowed s1 hprep hres lines hwrap, ?_⟩
-  have hst : (if (deliveryOrder e lines).length < max cfg.instant 1 then none
-       else some ((deliveryOrder e lines).drop (max cfg.instant 1)).reverse).getD [] =
-       ((deliveryOrder e lines).drop (max cfg.instant 1)).reverse := by
+  have hst : (if (deliveryOrder e (lines.take cfg.maximumMores)).length < max cfg.instant 1 then none
+       else some ((deliveryOrder e (lines.take cfg.maximumMores)).drop (max cfg.instant 1)).reverse).getD [] =
+       ((deliveryOrder e (lines.take cfg.maximumMores)).drop (max cfg.instant 1)).reverse := by
     split
     · rename_i h
       rw [List.drop_of_length_le (by omega)]; rfl
     · rfl
   rw [hst]
-  obtain ⟨h1, h2⟩ := runMores_reverse ks hks ((deliveryOrder e lines).drop (max cfg.instant 1))
+  obtain ⟨h1, h2⟩ := runMores_reverse ks hks ((deliveryOrder e (lines.take cfg.maximumMores)).drop (max cfg.instant 1))
   rw [h1, h2, List.drop_drop, List.take_add]
   exact ⟨rfl, rfl⟩
 
@@ -429,10 +432,10 @@ theorem visible_text_plain (e : Env) (cfg : Cfg) (chunks : List Str) (s : Str) (
     (hprep : prepare e cfg s = some (allowed, s1, false))
     (hcontract : chunks.flatten = munge s1)
     (h4 : suffixReserve e.texts (blen s1) + 4 ≤ allowed) :
-    ∃ lines, lines.flatten = munge s1 ∧ (∀ l ∈ lines, blen l ≤ allowed - suffixReserve e.texts (blen s1)) ∧
-      reply e cfg chunks s = .sent ((deliveryOrder e lines).take (max cfg.instant 1))
-        (if (deliveryOrder e lines).length < max cfg.instant 1 then none
-         else some ((deliveryOrder e lines).drop (max cfg.instant 1)).reverse) := by
+    ∃ lines : List Str, lines.flatten = munge s1 ∧ (∀ l ∈ lines, blen l ≤ allowed - suffixReserve e.texts (blen s1)) ∧
+      reply e cfg chunks s = .sent ((deliveryOrder e (lines.take cfg.maximumMores)).take (max cfg.instant 1))
+        (if (deliveryOrder e (lines.take cfg.maximumMores)).length < max cfg.instant 1 then none
+         else some ((deliveryOrder e (lines.take cfg.maximumMores)).drop (max cfg.instant 1)).reverse) := by
   obtain ⟨lines, h1, h2, h3⟩ := ircWrap_plain chunks s1 hplain hcontract (allowed - suffixReserve e.texts (blen s1)) (by omega)
   exact ⟨lines, h2, h3, reply_chunked e cfg chunks s allowed s1 hprep (by omega) lines h1⟩
 
@@ -592,11 +595,11 @@ theorem reply_text_clean (e : Env) (cfg : Cfg) (chunks : List Str) (s : Str) (al
     (hcontract : chunks.flatten = munge s1)
     (h4 : suffixReserve e.texts (blen s1) + (parse s1).maxSize + 4 ≤ allowed)
     (hclean : cleanWrap chunks s1 (allowed - suffixReserve e.texts (blen s1)) = true) :
-    ∃ lines, (lines.map stripFormatting).flatten = stripFormatting (munge s1) ∧
+    ∃ lines : List Str, (lines.map stripFormatting).flatten = stripFormatting (munge s1) ∧
       (∀ l ∈ lines, blen l ≤ allowed - suffixReserve e.texts (blen s1)) ∧
-      reply e cfg chunks s = .sent ((deliveryOrder e lines).take (max cfg.instant 1))
-        (if (deliveryOrder e lines).length < max cfg.instant 1 then none
-         else some ((deliveryOrder e lines).drop (max cfg.instant 1)).reverse) := by
+      reply e cfg chunks s = .sent ((deliveryOrder e (lines.take cfg.maximumMores)).take (max cfg.instant 1))
+        (if (deliveryOrder e (lines.take cfg.maximumMores)).length < max cfg.instant 1 then none
+         else some ((deliveryOrder e (lines.take cfg.maximumMores)).drop (max cfg.instant 1)).reverse) := by
   obtain ⟨lines, h1, h2, h3⟩ := visible_text_clean chunks s1 hcontract (allowed - suffixReserve e.texts (blen s1)) (by omega) hclean
   exact ⟨lines, h3, h2, reply_chunked e cfg chunks s allowed s1 hprep (by omega) lines h1⟩
 
@@ -612,37 +615,19 @@ example : clChunks.flatten = munge clText ∧ (parse clText).maxSize + 4 ≤ 20 
 
 /-! ## reply.mores.maximum -/
 
-/-
-Full statement ("up to the configured maximum number of chunks"): a chunked reply has at most
-`reply.mores.maximum` messages,
-
-    ∀ e cfg chunks s now stored, reply e cfg chunks s = .sent now stored →
-      now.length + (stored.getD []).length ≤ cfg.maximumMores
-
-FALSE on the pinned tree (`chunk_count_counterexample`, known finding C12-maximum-counts-characters): the
-text is cut to `allowedLength * maximum` *characters*, a chunk holds `allowedLength - reserve` *bytes*.
-What does hold: the text that is split has at most `allowedLength * maximum` characters, hence the
-number of messages is bounded by 32 × that.
--/
-theorem chunk_count_partial (e : Env) (cfg : Cfg) (chunks : List Str) (s : Str) (allowed : Nat) (s1 : Str)
+/-- "… up to the configured maximum number of chunks": a chunked reply consists of at most
+`reply.mores.maximum` messages (first answer and everything `more` can ever release), whatever the text.
+(Before the fix `chunks = chunks[:maximumMores]` the only cut counted CHARACTERS of the text, while a chunk
+holds fewer than `allowedLength` BYTES: 7 messages for maximum = 2 and the reply `'é' * 200`.) -/
+theorem chunk_count (e : Env) (cfg : Cfg) (chunks : List Str) (s : Str) (allowed : Nat) (s1 : Str)
     (hprep : prepare e cfg s = some (allowed, s1, false))
-    (hcontract : chunks.flatten = munge s1) (hne : ∀ c ∈ chunks, c ≠ [])
-    (h4 : suffixReserve e.texts (blen s1) + (parse s1).maxSize + 4 ≤ allowed) :
+    (hres : suffixReserve e.texts (blen s1) ≤ allowed)
+    (lines : List Str) (hwrap : ircWrap chunks s1 (allowed - suffixReserve e.texts (blen s1)) = .ok lines) :
     ∃ now stored, reply e cfg chunks s = .sent now stored ∧
-      s1.length ≤ allowed * cfg.maximumMores ∧
-      now.length + (stored.getD []).length ≤ max 1 (32 * (allowed * cfg.maximumMores)) := by
-  obtain ⟨hc, hk, ht⟩ := consts_ok
-  obtain ⟨hs1, _⟩ := prepare_s1 e cfg s allowed s1 false hprep
-  have hlen4 : (parse s1).maxSize + 4 ≤ allowed - suffixReserve e.texts (blen s1) := by omega
-  obtain ⟨raw, hraw, hwrap, _, _⟩ := ircWrap_struct chunks s1 _ hlen4
-  have hcount : (processLines none raw).length ≤ max 1 (8 * blen s1) := by
-    rw [processLines_length]
-    exact raw_length_le chunks s1 hcontract hne _ (by omega) raw hraw
-  have hrep := reply_chunked e cfg chunks s allowed s1 hprep (by omega) _ hwrap
-  have hl : s1.length ≤ allowed * cfg.maximumMores := by rw [hs1]; exact truncate_length _ _ _
-  refine ⟨_, _, hrep, hl, ?_⟩
-  have hb := blen_le_four_length s1
-  have hd := deliveryOrder_length e (processLines none raw)
+      now.length + (stored.getD []).length ≤ cfg.maximumMores := by
+  refine ⟨_, _, reply_chunked e cfg chunks s allowed s1 hprep hres lines hwrap, ?_⟩
+  have hd := deliveryOrder_length e (lines.take cfg.maximumMores)
+  have ht : (lines.take cfg.maximumMores).length ≤ cfg.maximumMores := List.length_take_le _ _
   split
   · simp only [Option.getD_none, List.length_nil, List.length_take]; omega
   · simp only [Option.getD_some, List.length_reverse, List.length_take, List.length_drop]; omega
@@ -654,21 +639,13 @@ def cexEnv : Env :=
     confInPrivate := false, confWithNickPrefix := true, confNoticeWhenPrivate := true }
 def cexCfg : Cfg := { moresLength := 60, maximumMores := 2, instant := 1, mores := true }
 
-/-- `reply.mores.length = 60`, `maximum = 2`, reply `'é' * 200`: 7 messages. -/
-theorem chunk_count_counterexample :
-    ¬ (∀ e cfg chunks s now stored, reply e cfg chunks s = .sent now stored →
-        now.length + (stored.getD []).length ≤ cfg.maximumMores) := by
-  intro h
-  have hv : ∃ now stored, reply cexEnv cexCfg [List.replicate 120 'é'] (List.replicate 200 'é') = .sent now stored ∧
-      now.length + (stored.getD []).length = 7 := by
-    refine ⟨(match reply cexEnv cexCfg [List.replicate 120 'é'] (List.replicate 200 'é') with
-              | .sent n _ => n | _ => []),
-            (match reply cexEnv cexCfg [List.replicate 120 'é'] (List.replicate 200 'é') with
-              | .sent _ st => st | _ => none), ?_, ?_⟩ <;> decide +kernel
-  obtain ⟨now, stored, h1, h2⟩ := hv
-  have := h _ _ _ _ _ _ h1
-  simp only [cexCfg] at this
-  omega
+/-- `reply.mores.length = 60`, `maximum = 2`, reply `'é' * 200`: exactly 2 messages -/
+example : ∃ now stored, reply cexEnv cexCfg [List.replicate 120 'é'] (List.replicate 200 'é') = .sent now stored ∧
+    now.length + (stored.getD []).length = 2 := by
+  refine ⟨(match reply cexEnv cexCfg [List.replicate 120 'é'] (List.replicate 200 'é') with
+            | .sent n _ => n | _ => []),
+          (match reply cexEnv cexCfg [List.replicate 120 'é'] (List.replicate 200 'é') with
+            | .sent _ st => st | _ => none), ?_, ?_⟩ <;> decide +kernel
 
 /-! ## locales -/
 
